@@ -1,10 +1,10 @@
 #!/bin/bash
-# multi-seed soak of the quick tier on a private snapshot of /repo
+# multi-seed soak of the quick tier on a private snapshot of /repo (SOAK_SEEDS="1 2 3")
 export WHEATLEY_REPO=$VP_RUN_REPO
 /venv/bin/python harness/extract.py $WHEATLEY_REPO && (cd lean && lake build driver Wheatley >/dev/null 2>&1)
-for seed in 1 2 3 4 5 6; do
+for seed in ${SOAK_SEEDS:-1 2 3 4 5 6}; do
   for i in $(seq -w 1 20); do
-    ( VERIF_SEED=$seed ./check.py C$i --tier quick 2>&1 | grep -E "^\[C|VIOLATION|KNOWN|no longer" | sed "s/^/seed=$seed /" ) &
+    ( VERIF_SEED=$seed ./check.py C$i --tier quick 2>&1 | grep -E "^\[C|VIOLATION|no longer" | sed "s/^/seed=$seed /" ) &
   done
   wait
 done
